@@ -220,7 +220,8 @@ RteLoop(s, cfg, st, dev, nm, depth, start, fuel) ==
         r   == ReadEvent(s, cfg, st, dev) IN
     IF fuel = 0 THEN [ok |-> FALSE, e |-> "Fuel", start |-> start, end |-> end, st |-> st]
     ELSE IF r.ev.k = "Err" THEN [ok |-> FALSE, e |-> r.ev.e, start |-> start, end |-> end, st |-> r.st]
-    ELSE IF r.ev.k = "Eof" THEN [ok |-> FALSE, e |-> "IllFormed.MissingEndTag", start |-> start, end |-> end, st |-> r.st]
+    \* (Error::missed_end decodes the name for the message: a name that is not UTF-8 surfaces as an Encoding error instead)
+    ELSE IF r.ev.k = "Eof" THEN [ok |-> FALSE, e |-> IF IsUtf8(nm) THEN "IllFormed.MissingEndTag" ELSE "Encoding", start |-> start, end |-> end, st |-> r.st]
     ELSE IF r.ev.k = "Start" /\ Slice(s, r.ev.lo, r.ev.lo + r.ev.n) = nm
          THEN RteLoop(s, cfg, r.st, dev, nm, depth + 1, start, fuel - 1)
     ELSE IF r.ev.k = "End" /\ Slice(s, r.ev.lo, r.ev.hi) = nm
